@@ -1,1 +1,932 @@
-// verification harness (compiled into ntp-proto/src/algorithm/kalman/mod.rs under cfg(all(test, pendulum_project_ntpd_rs_verif)))
+// Harness for spec/ClockSel.tla and spec/ClockCtl.tla (clock controller, selection, leap vote, wrapper loop).
+// Compiled into ntp-proto/src/algorithm/kalman/mod.rs under cfg(all(test, pendulum_project_ntpd_rs_verif)):
+// a child of `algorithm::kalman`, so it can call select::select, combiner::combine, read the private fields of
+// KalmanClockController and (being a descendant of `algorithm`) those of TimeSyncControllerWrapper.
+//   mode "select": every TLC-enumerated candidate list -> real select(); reports the selected indices
+//   mode "leap":   every TLC-enumerated leap multiset (in 3 orders) -> real combine(); reports the vote
+//   mode "replay": TLC-generated walks of ClockCtl replayed through the real TimeSyncControllerWrapper (public API:
+//                  add_source / handle_measurement / set_usable / drop / run) with a recording NtpClock; the run()
+//                  future is polled by hand once per delivered message, "Threshold exceeded" panics are the Exit
+//   mode "filter": history shapes (FilterShapes) replayed on real source + clock controllers (C06)
+// (no "record" mode: trace validation of random sessions against ClockCtl is not implemented)
+#![allow(clippy::all, dead_code, unused_imports)]
+
+use super::*;
+use crate::algorithm::{
+    InternalMeasurement, InternalSourceController, Measurement, SourceController, TimeSyncController,
+    TimeSyncControllerWrapper, TwoWaySourceControllerWrapper, WrapperMessage,
+};
+use crate::config::StepThreshold;
+use matrix::{Matrix, Vector};
+use serde_json::{Value, json};
+use std::sync::{Arc, Mutex};
+
+#[path = "/verif/harness/common/util.rs"]
+mod util;
+use util::{Rng, b, i, s};
+
+// ------------------------------------------------------------------------------------------------
+// pure functions: select() and combine()/vote_leap()
+// ------------------------------------------------------------------------------------------------
+fn leap_of(name: &str) -> NtpLeapIndicator {
+    match name {
+        "none" => NtpLeapIndicator::NoWarning,
+        "59" => NtpLeapIndicator::Leap59,
+        "61" => NtpLeapIndicator::Leap61,
+        "unknown" => NtpLeapIndicator::Unknown,
+        "unsync" => NtpLeapIndicator::Unsynchronized,
+        x => panic!("bad leap {x}"),
+    }
+}
+
+fn leap_name(l: NtpLeapIndicator) -> &'static str {
+    match l {
+        NtpLeapIndicator::NoWarning => "none",
+        NtpLeapIndicator::Leap59 => "59",
+        NtpLeapIndicator::Leap61 => "61",
+        NtpLeapIndicator::Unknown => "unknown",
+        NtpLeapIndicator::Unsynchronized => "unsync",
+    }
+}
+
+fn mk_snapshot(id: u64, center: f64, unc: f64, delay: f64, period: Option<f64>, leap: NtpLeapIndicator) -> SourceSnapshot {
+    SourceSnapshot {
+        index: ClockId(id),
+        state: KalmanState {
+            state: Vector::new_vector([center, 0.0]),
+            uncertainty: Matrix::new([[sqr(unc), 0.0], [0.0, 1e-12]]),
+            time: NtpTimestamp::from_fixed_int(0),
+        },
+        wander: 0.0,
+        delay,
+        period,
+        source_uncertainty: NtpDuration::from_fixed_int(0),
+        source_delay: NtpDuration::from_fixed_int(0),
+        leap_indicator: leap,
+        last_update: NtpTimestamp::from_fixed_int(0),
+    }
+}
+
+/// Interval ends are model integers k; concretely (k + shift) * unit with a dyadic unit, so that every float
+/// operation select() performs on them (sqrt of the variance, radius, offset -/+ radius) is exact.
+fn run_select(job: &Value) {
+    let cases = util::read_ndjson(job["input"].as_str().unwrap());
+    let mut out = util::NdjsonOut::create(job["output"].as_str().unwrap());
+    let mut rng = Rng::new(job["seed"].as_u64().unwrap_or(1));
+    let units = [1.0 / 1024.0, 1.0 / 16.0, 1.0 / 65536.0];
+    let shifts = [0.0, -2.0, -7.0, 100.0];
+    for (n, case) in cases.iter().enumerate() {
+        let unit = *rng.pick(&units);
+        let shift = *rng.pick(&shifts);
+        let m = i(case, "m") as usize;
+        let w = i(case, "w") as f64;
+        let sync = SynchronizationConfig { minimum_agreeing_sources: m, ..SynchronizationConfig::default() };
+        let algo = AlgorithmConfig { maximum_source_uncertainty: w * unit / 2.0, ..AlgorithmConfig::default() };
+        assert!(algo.range_statistical_weight == 2.0 && algo.range_delay_weight == 0.25);
+        let mut cands = Vec::new();
+        for (k, c) in case["c"].as_array().unwrap().iter().enumerate() {
+            let lo = (i(c, "lo") as f64 + shift) * unit;
+            let hi = (i(c, "hi") as f64 + shift) * unit;
+            let center = (lo + hi) / 2.0;
+            let radius = (hi - lo) / 2.0;
+            let (unc, delay) = match rng.below(3) {
+                0 => (radius / 2.0, 0.0),
+                1 => (0.0, radius * 4.0),
+                _ => (radius / 4.0, radius * 2.0),
+            };
+            let kind = s(c, "kind");
+            let period = if kind == "periodic" { Some(1000.0) } else { None };
+            let leap = if kind == "unsync" { NtpLeapIndicator::Unsynchronized } else { NtpLeapIndicator::NoWarning };
+            let sn = mk_snapshot(k as u64 + 1, center, unc, delay, period, leap);
+            // the concretisation is exact: the interval the code computes is the model's
+            let r = sn.offset_uncertainty() * 2.0 + sn.delay * 0.25;
+            assert!(sn.offset() - r == lo && sn.offset() + r == hi, "inexact concretisation");
+            cands.push(sn);
+        }
+        let res = util::catch(|| select::select(&sync, &algo, &cands));
+        let row = match res {
+            Ok(sel) => json!({"id": n, "sel": sel.iter().map(|x| x.index.0).collect::<Vec<_>>(), "panic": Value::Null}),
+            Err(p) => json!({"id": n, "sel": Value::Null, "panic": p}),
+        };
+        out.put(&row);
+    }
+    out.finish();
+}
+
+fn run_leap(job: &Value) {
+    let cases = util::read_ndjson(job["input"].as_str().unwrap());
+    let mut out = util::NdjsonOut::create(job["output"].as_str().unwrap());
+    let mut rng = Rng::new(job["seed"].as_u64().unwrap_or(1));
+    let algo = AlgorithmConfig::default();
+    for (n, case) in cases.iter().enumerate() {
+        let base: Vec<String> = case["l"].as_array().unwrap().iter().map(|x| x.as_str().unwrap().to_string()).collect();
+        let mut votes = Vec::new();
+        for order in 0..3 {
+            let mut ls = base.clone();
+            match order {
+                0 => {}
+                1 => ls.reverse(),
+                _ => {
+                    for k in (1..ls.len()).rev() {
+                        let j = rng.below(k as u64 + 1) as usize;
+                        ls.swap(k, j);
+                    }
+                }
+            }
+            let sel: Vec<SourceSnapshot> = ls
+                .iter()
+                .enumerate()
+                .map(|(k, l)| mk_snapshot(k as u64 + 1, 0.0, 1.0 / 1024.0, 1.0 / 1024.0, None, leap_of(l)))
+                .collect();
+            let res = util::catch(|| combine(&sel, &algo).map(|c| (c.leap_indicator, c.sources.len())));
+            votes.push(match res {
+                Ok(None) => json!({"vote": "keep", "combined": false, "used": 0}),
+                Ok(Some((v, used))) => json!({"vote": v.map(leap_name).unwrap_or("keep"), "combined": true, "used": used}),
+                Err(p) => json!({"vote": "panic", "panic": p}),
+            });
+        }
+        out.put(&json!({"id": n, "votes": votes}));
+    }
+    out.finish();
+}
+
+// ------------------------------------------------------------------------------------------------
+// ClockCtl: the real wrapper + controller + source controllers behind a recording clock
+// ------------------------------------------------------------------------------------------------
+#[derive(Default)]
+struct ClockLog {
+    steps: Vec<NtpDuration>,
+    freqs: Vec<f64>,
+    errs: Vec<(NtpDuration, NtpDuration)>,
+    status: Vec<NtpLeapIndicator>,
+    stepped: NtpDuration, // sum of all steps
+    mono: NtpDuration,    // monotonic time elapsed (stays 0 in the ClockCtl replays): local clock = base + mono + stepped
+    freq: f64,
+}
+
+#[derive(Clone)]
+struct MockClock {
+    log: Arc<Mutex<ClockLog>>,
+    base: NtpTimestamp,
+}
+
+impl MockClock {
+    fn new(freq0: f64) -> Self {
+        MockClock {
+            log: Arc::new(Mutex::new(ClockLog { freq: freq0, ..Default::default() })),
+            base: NtpTimestamp::from_fixed_int(1000u64 << 32),
+        }
+    }
+    fn local(&self) -> NtpTimestamp {
+        let l = self.log.lock().unwrap();
+        self.base + l.mono + l.stepped
+    }
+}
+
+impl NtpClock for MockClock {
+    type Error = std::io::Error;
+    fn now(&self) -> Result<NtpTimestamp, Self::Error> {
+        Ok(self.local())
+    }
+    fn set_frequency(&self, freq: f64) -> Result<NtpTimestamp, Self::Error> {
+        let mut l = self.log.lock().unwrap();
+        l.freqs.push(freq);
+        l.freq = freq;
+        Ok(self.base + l.mono + l.stepped)
+    }
+    fn get_frequency(&self) -> Result<f64, Self::Error> {
+        Ok(self.log.lock().unwrap().freq)
+    }
+    fn step_clock(&self, offset: NtpDuration) -> Result<NtpTimestamp, Self::Error> {
+        let mut l = self.log.lock().unwrap();
+        l.steps.push(offset);
+        l.stepped = l.stepped + offset;
+        Ok(self.base + l.mono + l.stepped)
+    }
+    fn disable_ntp_algorithm(&self) -> Result<(), Self::Error> {
+        Ok(())
+    }
+    fn error_estimate_update(&self, est_error: NtpDuration, max_error: NtpDuration) -> Result<(), Self::Error> {
+        self.log.lock().unwrap().errs.push((est_error, max_error));
+        Ok(())
+    }
+    fn status_update(&self, leap_status: NtpLeapIndicator) -> Result<(), Self::Error> {
+        self.log.lock().unwrap().status.push(leap_status);
+        Ok(())
+    }
+}
+
+type Ctl = KalmanClockController<MockClock>;
+type Wrapper = TimeSyncControllerWrapper<Ctl>;
+type SrcHandle = TwoWaySourceControllerWrapper<TwoWayKalmanSourceController>;
+type Wire = (ClockId, WrapperMessage<KalmanSourceMessage>);
+
+const INF: i64 = 9999;
+const UNIT: i64 = 1 << 32;
+
+/// raw 32.32 fixed-point value of a duration (NtpDuration has no crate-visible accessor: 0 + d round-trips it)
+fn fixed(d: NtpDuration) -> i64 {
+    i64::from_be_bytes((NtpTimestamp::from_fixed_int(0) + d).to_bits())
+}
+
+/// whole seconds of a fixed-point duration if it is a whole number of seconds, else a tagged raw value
+fn secs_json(d: NtpDuration) -> Value {
+    let f = fixed(d);
+    if f % UNIT == 0 { json!(f / UNIT) } else { json!(format!("raw:{f}")) }
+}
+
+fn secs_f64_json(x: f64) -> Value {
+    if x.fract() == 0.0 && x.abs() < 1e9 { json!(x as i64) } else { json!(format!("f64:{x:e}")) }
+}
+
+struct CtlCfg {
+    n: usize,
+    sync: SynchronizationConfig,
+    algo: AlgorithmConfig,
+    f0: f64,
+    ghosts: bool,
+}
+
+fn thr(v: i64, rng: &mut Rng) -> Option<NtpDuration> {
+    if v == INF {
+        None
+    } else if v % 2 == 0 {
+        Some(NtpDuration::from_fixed_int((v / 2) * UNIT))
+    } else if rng.chance(1, 2) {
+        Some(NtpDuration::from_fixed_int((v / 2) * UNIT + 1)) // one unit above k seconds
+    } else {
+        Some(NtpDuration::from_fixed_int((v / 2 + 1) * UNIT - 1)) // one unit below k+1 seconds
+    }
+}
+
+impl CtlCfg {
+    fn from(c: &Value, rng: &mut Rng) -> Self {
+        let sync = SynchronizationConfig {
+            minimum_agreeing_sources: i(c, "MinAgree") as usize,
+            single_step_panic_threshold: StepThreshold { forward: thr(i(c, "Fwd2"), rng), backward: thr(i(c, "Bwd2"), rng) },
+            startup_step_panic_threshold: StepThreshold { forward: thr(i(c, "SFwd2"), rng), backward: thr(i(c, "SBwd2"), rng) },
+            accumulated_step_panic_threshold: thr(i(c, "Acc2"), rng),
+            ..SynchronizationConfig::default()
+        };
+        let algo = AlgorithmConfig {
+            step_threshold: i(c, "StepThresh") as f64,
+            steer_offset_leftover: 0.0,
+            maximum_frequency_steer: i(c, "MaxSteer") as f64 * 1e-6,
+            slew_maximum_frequency_offset: i(c, "SlewMax") as f64 * 1e-6,
+            ..AlgorithmConfig::default()
+        };
+        let f0 = i(c, "F0") as f64 * 1e-6 * if b(c, "F0Neg") { -1.0 } else { 1.0 };
+        CtlCfg { n: i(c, "N") as usize, sync, algo, f0, ghosts: b(c, "Ghosts") }
+    }
+}
+
+struct Slot {
+    id: Option<ClockId>,
+    handle: Option<SrcHandle>,
+    samples: usize,
+    stash: Option<KalmanSourceMessage>,
+}
+
+struct World {
+    cfg: CtlCfg,
+    clock: MockClock,
+    w: Arc<Wrapper>,
+    from_sources: tokio::sync::mpsc::UnboundedReceiver<Wire>,
+    to_loop: tokio::sync::mpsc::UnboundedSender<Wire>,
+    chan: std::collections::VecDeque<Wire>,
+    slots: Vec<Slot>,
+    next_id: u64,
+    dead: bool,
+}
+
+impl World {
+    fn new(cfg: CtlCfg) -> World {
+        let clock = MockClock::new(cfg.f0);
+        let w = Wrapper::new(clock.clone(), cfg.sync, cfg.algo).expect("wrapper");
+        // The sources write into the wrapper's own channel; the harness relays its messages one at a time
+        // into a second channel that run() reads, so that "the loop consumes exactly one message" is a step.
+        let (to_loop, loop_rx) = tokio::sync::mpsc::unbounded_channel();
+        let from_sources = w.messages_for_system.lock().unwrap().replace(loop_rx).expect("receiver");
+        w.take_control().expect("take_control");
+        let slots = (0..cfg.n).map(|_| Slot { id: None, handle: None, samples: 0, stash: None }).collect();
+        let mut wd = World { cfg, clock, w: Arc::new(w), from_sources, to_loop, chan: Default::default(), slots, next_id: 100, dead: false };
+        wd.take_log();
+        wd
+    }
+
+    fn take_log(&mut self) -> ClockLog {
+        let mut l = self.clock.log.lock().unwrap();
+        let out = ClockLog {
+            steps: std::mem::take(&mut l.steps),
+            freqs: std::mem::take(&mut l.freqs),
+            errs: std::mem::take(&mut l.errs),
+            status: std::mem::take(&mut l.status),
+            stepped: l.stepped,
+            mono: l.mono,
+            freq: l.freq,
+        };
+        out
+    }
+
+    fn drain(&mut self) {
+        while let Ok(m) = self.from_sources.try_recv() {
+            self.chan.push_back(m);
+        }
+    }
+
+    fn slot_of(&self, id: ClockId) -> Option<usize> {
+        self.slots.iter().position(|s| s.id == Some(id))
+    }
+
+    fn measure(&mut self, k: usize, off: i64, leap: NtpLeapIndicator, wide: bool) {
+        let now = self.clock.local();
+        let id = self.slots[k].id.unwrap();
+        let d = if wide { UNIT } else { 1 << 14 }; // 1 s or 2^-18 s (MIN_DELAY)
+        // a fixed-point offset of off * (2^32 - 1) units converts to exactly `off` seconds as f64
+        let off_fixed = off * (UNIT - 1);
+        let t1 = now - NtpDuration::from_fixed_int(d);
+        let t2 = t1 + NtpDuration::from_fixed_int(off_fixed + d / 2);
+        let zero = NtpDuration::from_fixed_int(0);
+        let outgoing = Measurement { sender_id: ClockId::SYSTEM, receiver_id: id, sender_ts: t1, receiver_ts: t2,
+                                     root_delay: zero, root_dispersion: zero, leap, precision: 0 };
+        let incoming = Measurement { sender_id: id, receiver_id: ClockId::SYSTEM, sender_ts: t2, receiver_ts: now,
+                                     root_delay: zero, root_dispersion: zero, leap, precision: 0 };
+        let h = self.slots[k].handle.as_mut().unwrap();
+        h.handle_measurement(outgoing);
+        h.handle_measurement(incoming);
+        self.slots[k].samples += 1;
+    }
+
+    /// one source-side or timer action; controller-loop polling is done by the caller
+    fn source_action(&mut self, a: &Value) {
+        let t = s(a, "t");
+        let k = a.get("i").and_then(|x| x.as_i64()).map(|x| x as usize - 1);
+        match t.as_str() {
+            "Add" => {
+                let k = k.unwrap();
+                let id = ClockId(self.next_id);
+                self.next_id += 1;
+                let h = self.w.add_source(id, SourceConfig::default());
+                self.slots[k] = Slot { id: Some(id), handle: Some(h), samples: 0, stash: None };
+            }
+            "Meas" => self.measure(k.unwrap(), i(a, "off"), leap_of(&s(a, "leap")), b(a, "wide")),
+            "Usable" => self.slots[k.unwrap()].handle.as_mut().unwrap().set_usable(b(a, "b")),
+            "Drop" => {
+                let k = k.unwrap();
+                self.slots[k].handle = None;
+                self.slots[k].samples = 0;
+            }
+            _ => unreachable!(),
+        }
+        self.drain();
+    }
+
+    fn radius(&self, sn: &SourceSnapshot) -> f64 {
+        sn.offset_uncertainty() * self.cfg.algo.range_statistical_weight + sn.delay * self.cfg.algo.range_delay_weight
+    }
+
+    fn time_json(&self, t: NtpTimestamp) -> Value {
+        secs_json(t - self.clock.base)
+    }
+
+    fn snap_json(&self, sn: Option<&SourceSnapshot>) -> Value {
+        match sn {
+            None => json!({"has": false, "off": 0, "t": 0, "leap": "none", "wide": false}),
+            Some(sn) => {
+                let wide = !(self.radius(sn) <= self.cfg.algo.maximum_source_uncertainty);
+                json!({"has": true, "off": if wide { json!(0) } else { secs_f64_json(sn.offset()) }, "t": self.time_json(sn.state.time),
+                       "leap": leap_name(sn.leap_indicator), "wide": wide})
+            }
+        }
+    }
+
+    fn msg_json(&self, m: &Wire) -> Value {
+        let slot = self.slot_of(m.0).map(|x| x as i64 + 1).unwrap_or(-1);
+        match &m.1 {
+            WrapperMessage::SourceMessage(sm) => {
+                let sn = &sm.inner;
+                let wide = !(self.radius(sn) <= self.cfg.algo.maximum_source_uncertainty);
+                json!({"i": slot, "k": "M", "off": secs_f64_json(sn.offset()), "tm": self.time_json(sn.last_update),
+                       "leap": leap_name(sn.leap_indicator), "wide": wide, "b": false})
+            }
+            WrapperMessage::UsabilityChange(u) => json!({"i": slot, "k": "U", "off": 0, "tm": 0, "leap": "none", "wide": false, "b": u}),
+            WrapperMessage::Dropped => json!({"i": slot, "k": "D", "off": 0, "tm": 0, "leap": "none", "wide": false, "b": false}),
+        }
+    }
+
+    /// projection of the real state onto the specification's state record (`expected` supplies the
+    /// fields that have no counterpart in the implementation)
+    fn observe(&self, expected: &Value) -> Value {
+        if self.dead {
+            let mut o = expected.clone();
+            o["dead"] = json!(true);
+            return o;
+        }
+        let ctl = self.w.inner.lock().unwrap();
+        let (snapshot, used) = self.w.synchronization_state();
+        let mut src = Vec::new();
+        for (k, sl) in self.slots.iter().enumerate() {
+            let entry = sl.id.and_then(|id| ctl.sources.get(&id));
+            let sv = match &sl.handle {
+                Some(h) if sl.samples > 0 => {
+                    let o = h.observe();
+                    json!({"n": sl.samples, "off": secs_json(o.offset), "wide": fixed(o.delay) >= UNIT})
+                }
+                _ => json!({"n": 0, "off": 0, "wide": false}),
+            };
+            src.push(json!({
+                "alive": sl.handle.is_some(),
+                "reg": entry.is_some(),
+                "usable": entry.map(|e| e.1).unwrap_or(false),
+                "had": expected["src"][k]["had"].clone(),
+                "was": expected["src"][k]["was"].clone(),
+                "sv": sv,
+                "snap": self.snap_json(entry.and_then(|e| e.0.as_ref())),
+            }));
+        }
+        // ids of earlier occupants of a re-used slot may linger in the published list until the next estimate
+        let mut used_slots: Vec<i64> = used.iter().filter_map(|id| self.slot_of(*id).map(|x| x as i64 + 1)).collect();
+        used_slots.sort();
+        let des = ctl.desired_freq;
+        json!({
+            "src": src,
+            "chan": self.chan.iter().map(|m| self.msg_json(m)).collect::<Vec<_>>(),
+            "inStartup": ctl.in_startup,
+            "acc": secs_json(ctl.timedata.accumulated_steps),
+            "slew": if des == 0.0 { 0 } else if des < 0.0 { 1 } else { -1 },
+            "leap": leap_name(snapshot.leap_indicator),
+            "used": used_slots,
+            "dead": false,
+            "clk": self.time_json(self.clock.local()),
+            "f": (ctl.freq_offset * 1e6).round() as i64,
+        })
+    }
+
+    fn out_json(&mut self, exit: bool) -> Value {
+        let l = self.take_log();
+        let max = self.cfg.algo.maximum_frequency_steer;
+        let mut freq_ok = l.freqs.iter().all(|f| f.is_finite() && f.abs() <= max);
+        if !self.dead {
+            let ctl = self.w.inner.lock().unwrap();
+            freq_ok &= ctl.desired_freq.abs() <= self.cfg.algo.slew_maximum_frequency_offset;
+            freq_ok &= ctl.freq_offset.abs() <= max || (l.freqs.is_empty() && ctl.freq_offset == self.cfg.f0);
+        }
+        json!({
+            "steps": l.steps.iter().map(|d| secs_json(*d)).collect::<Vec<_>>(),
+            "exit": exit,
+            "err": !l.errs.is_empty(),
+            "status": l.status.iter().map(|x| leap_name(*x)).collect::<Vec<_>>(),
+            "freqs": l.freqs.iter().map(|f| (f * 1e6).round() as i64).collect::<Vec<_>>(),
+            "freqOk": freq_ok,
+        })
+    }
+}
+
+/// polls the wrapper's run() future once: it consumes whatever is ready (the harness makes exactly one thing ready)
+async fn poll_loop<F: std::future::Future<Output = ()>>(run: &mut std::pin::Pin<&mut F>) -> Result<(), String> {
+    std::future::poll_fn(|cx| {
+        let r = util::catch(|| {
+            let _ = run.as_mut().poll(cx);
+        });
+        std::task::Poll::Ready(r)
+    })
+    .await
+}
+
+/// Executes one abstract action on the real objects; returns (observed out, panic message if unexpected)
+async fn do_action<F: std::future::Future<Output = ()>>(wd: &mut World, run: &mut std::pin::Pin<&mut F>, a: &Value) -> (Value, Option<String>) {
+    let t = s(a, "t");
+    let mut panic = None;
+    let mut exit = false;
+    match t.as_str() {
+        "Add" | "Meas" | "Usable" | "Drop" => {
+            if let Err(p) = util::catch(|| wd.source_action(a)) {
+                panic = Some(p);
+            }
+        }
+        "Recv" | "SlewEnd" | "Ghost" => {
+            match t.as_str() {
+                "Recv" => {
+                    let m = wd.chan.pop_front().expect("model says the channel is not empty");
+                    if let WrapperMessage::SourceMessage(sm) = &m.1 {
+                        if let Some(k) = wd.slot_of(m.0) {
+                            wd.slots[k].stash = Some(*sm);
+                        }
+                    }
+                    wd.to_loop.send(m).ok();
+                }
+                "SlewEnd" => {
+                    // slews are for 1 s at the maximum slew frequency (all modelled slews correct exactly 1 s)
+                    let d = 1.0 / wd.cfg.algo.slew_maximum_frequency_offset.min(1.0 / wd.cfg.algo.slew_minimum_duration);
+                    tokio::time::advance(std::time::Duration::from_secs_f64(d + 1.0)).await
+                }
+                _ => {
+                    let k = i(a, "i") as usize - 1;
+                    let id = wd.slots[k].id.unwrap();
+                    let sm = wd.slots[k].stash.expect("ghost needs an earlier message");
+                    wd.to_loop.send((id, WrapperMessage::UsabilityChange(true))).ok();
+                    wd.to_loop.send((id, WrapperMessage::SourceMessage(sm))).ok();
+                }
+            }
+            match poll_loop(run).await {
+                Ok(()) => {}
+                Err(p) if p == "Threshold exceeded" => {
+                    exit = true;
+                    wd.dead = true;
+                }
+                Err(p) => {
+                    wd.dead = true;
+                    panic = Some(p);
+                }
+            }
+            wd.drain();
+        }
+        x => panic!("unknown action {x}"),
+    }
+    (wd.out_json(exit), panic)
+}
+
+/// derived observables of a (state, out) pair in the specification's JSON shape, see ConeTable in ClockCtl.tla
+fn derived(st: &Value, out: &Value) -> (Value, Value, Value) {
+    let clk = st["clk"].as_i64();
+    let rel = |v: &Value, sign: i64| match (v.as_i64(), clk) {
+        (Some(x), Some(c)) => json!(x + sign * c),
+        _ => json!([v.clone(), st["clk"].clone()]),
+    };
+    let mut reg = Vec::new();
+    let mut abs = Vec::new();
+    let mut ok_set = Vec::new();
+    for (k, sl) in st["src"].as_array().map(|a| a.as_slice()).unwrap_or(&[]).iter().enumerate() {
+        let sn = &sl["snap"];
+        let has = sn["has"] == json!(true);
+        let wide = sn["wide"] == json!(true);
+        reg.push(json!([sl["alive"], sl["reg"], sl["usable"], sn["has"], if has { sn["leap"].clone() } else { json!("none") }]));
+        abs.push(json!([
+            if has && !wide { rel(&sn["off"], 1) } else { json!(0) },
+            if has { rel(&sn["t"], -1) } else { json!(0) },
+            wide,
+            if sl["sv"]["n"] != json!(0) { rel(&sl["sv"]["off"], 1) } else { json!(0) },
+            sl["sv"]["n"],
+            sl["sv"]["wide"],
+        ]));
+        if sl["reg"] == json!(true) && sl["usable"] == json!(true) {
+            ok_set.push(json!(k as i64 + 1));
+        }
+    }
+    let used_ok = if out["err"] == json!(true) {
+        st["used"].as_array().map(|u| u.iter().all(|x| ok_set.contains(x))).unwrap_or(false)
+    } else {
+        true
+    };
+    (json!(reg), json!(abs), json!(used_ok))
+}
+
+fn diff_state(expected_post: &Value, expected_out: &Value, st: &Value, out: &Value) -> Vec<String> {
+    let mut fields = Vec::new();
+    if expected_post["dead"] == json!(true) || st["dead"] == json!(true) {
+        if expected_post["dead"] != st["dead"] {
+            fields.push("dead".to_string());
+        }
+    } else {
+        util::diff_fields("", expected_post, st, &mut fields);
+        let e = derived(expected_post, expected_out);
+        let o = derived(st, out);
+        if e.0 != o.0 {
+            fields.push("srcReg".to_string());
+        }
+        if e.1 != o.1 {
+            fields.push("srcAbs".to_string());
+        }
+        if e.2 != o.2 {
+            fields.push("usedOk".to_string());
+        }
+    }
+    // "cons": this update reached a combined estimate (it went on to the steering decision)
+    let cons = |o: &Value| o["err"] == json!(true) || o["exit"] == json!(true);
+    if cons(expected_out) != cons(out) {
+        fields.push("cons".to_string());
+    }
+    util::diff_fields("out.", expected_out, out, &mut fields);
+    // frequencies are modelled in whole ppm without the second-order term of (1+f)(1+c)-1 (< 0.3 ppm per call,
+    // reset by every saturation): compare with a tolerance of 8 ppm; the configured bound is checked exactly (out.freqOk)
+    const TOL: i64 = 8;
+    let close = |a: &Value, b: &Value| matches!((a.as_i64(), b.as_i64()), (Some(x), Some(y)) if (x - y).abs() <= TOL);
+    fields.retain(|f| match f.as_str() {
+        "f" => !close(&expected_post["f"], &st["f"]),
+        "out.freqs" => match (expected_out["freqs"].as_array(), out["freqs"].as_array()) {
+            (Some(e), Some(o)) => !(e.len() == o.len() && e.iter().zip(o).all(|(x, y)| close(x, y))),
+            _ => true,
+        },
+        _ => true,
+    });
+    fields
+}
+
+async fn replay_walk(cfgv: &Value, walk: &Value, seed: u64) -> Value {
+    let id = walk["id"].as_u64().unwrap();
+    let mut rng = Rng::new(seed ^ id.wrapping_mul(0x9E37));
+    let mut wd = World::new(CtlCfg::from(cfgv, &mut rng));
+    let w = wd.w.clone();
+    let mut run = std::pin::pin!(tokio::task::unconstrained(w.run()));
+    let mut fail = Value::Null;
+    let mut n = 0;
+    for (k, st) in walk["walk"].as_array().unwrap().iter().enumerate() {
+        let (out, panic) = do_action(&mut wd, &mut run, &st["act"]).await;
+        let obs = wd.observe(&st["post"]);
+        let mut fields = diff_state(&st["post"], &st["out"], &obs, &out);
+        if panic.is_some() {
+            fields.push("panic".to_string());
+            // a panic is a difference of everything the step could have produced
+            for f in ["out.steps", "out.exit", "out.err", "out.status", "out.freqs", "out.freqOk", "src", "srcReg", "srcAbs", "used", "cons", "acc", "clk"] {
+                fields.push(f.to_string());
+            }
+        }
+        if !fields.is_empty() {
+            fields.sort();
+            fields.dedup();
+            fail = json!({"step": k, "fields": fields, "observed": {"st": obs, "out": out}, "panic": panic});
+            break;
+        }
+        n += 1;
+        if wd.dead {
+            break;
+        }
+        tokio::task::yield_now().await;
+    }
+    json!({"id": id, "steps_run": n, "fail": fail})
+}
+
+fn run_replay(job: &Value) {
+    let walks = util::read_ndjson(job["input"].as_str().unwrap());
+    let mut out = util::NdjsonOut::create(job["output"].as_str().unwrap());
+    let seed = job["seed"].as_u64().unwrap_or(1);
+    for walk in &walks {
+        let rt = tokio::runtime::Builder::new_current_thread().enable_time().start_paused(true).build().unwrap();
+        let row = rt.block_on(replay_walk(&job["cfg"], walk, seed));
+        out.put(&row);
+    }
+    out.finish();
+}
+
+// ------------------------------------------------------------------------------------------------
+// C06: history shapes replayed on the real source controller + clock controller, number classes logged
+// ------------------------------------------------------------------------------------------------
+const BIG: i64 = ((1 << 31) - 2) * UNIT;
+
+fn cls(x: f64, nonneg: bool) -> &'static str {
+    if x.is_nan() {
+        "nan"
+    } else if x.is_infinite() {
+        "inf"
+    } else if nonneg && x < 0.0 {
+        "neg"
+    } else {
+        "ok"
+    }
+}
+
+fn worse(a: &str, b: &str) -> bool {
+    let rank = |x: &str| match x {
+        "ok" => 0,
+        "neg" => 1,
+        "inf" => 2,
+        _ => 3,
+    };
+    rank(b) > rank(a)
+}
+
+struct Classes(std::collections::BTreeMap<&'static str, &'static str>);
+impl Classes {
+    fn new() -> Self {
+        let mut m = std::collections::BTreeMap::new();
+        for f in ["est_offset", "est_variance", "est_freq", "est_freq_variance", "est_delay", "est_wander", "obs_offset", "obs_uncertainty",
+                  "obs_delay", "clk_freq", "clk_step", "clk_est_error", "clk_max_error", "snap_var0", "snap_var1", "snap_var2", "snap_var3",
+                  "snap_dispersion", "snap_delay", "msg_steer"] {
+            m.insert(f, "ok");
+        }
+        Classes(m)
+    }
+    fn put(&mut self, f: &'static str, x: f64, nonneg: bool) {
+        let c = cls(x, nonneg);
+        if worse(self.0[f], c) {
+            self.0.insert(f, c);
+        }
+    }
+}
+
+async fn run_shape(shape: &Value) -> Value {
+    let clock = MockClock::new(0.0);
+    let sync = SynchronizationConfig {
+        minimum_agreeing_sources: 1,
+        single_step_panic_threshold: StepThreshold { forward: None, backward: None },
+        startup_step_panic_threshold: StepThreshold { forward: None, backward: None },
+        accumulated_step_panic_threshold: None,
+        ..SynchronizationConfig::default()
+    };
+    let algo = AlgorithmConfig::default();
+    let mut ctl = KalmanClockController::new(clock.clone(), sync, algo).unwrap();
+    let id = ClockId(7);
+    let mut src = ctl.add_source(id, SourceConfig::default());
+    ctl.source_update(id, true);
+    let mut c = Classes::new();
+    let mut panics: Vec<String> = Vec::new();
+    let mut nanpanic = false;
+    let mut stable = false;
+    let mut clock_calls = 0usize;
+    let mut slew_until: Option<tokio::time::Instant> = None;
+    let mut disp_nan_after_step = false;
+
+    let base = &shape["base"];
+    let reps = shape["reps"].as_u64().unwrap_or(1) as usize;
+    let mut plan: Vec<(String, String, String, String)> = Vec::new();
+    for k in 0..8 {
+        let off = match s(base, "off").as_str() {
+            "alt" => if k % 2 == 0 { "sec".to_string() } else { "secneg".to_string() },
+            x => x.to_string(),
+        };
+        plan.push((off, s(base, "delay"), s(base, "gap"), "zero".to_string()));
+    }
+    for t in shape["tail"].as_array().unwrap() {
+        for _ in 0..reps {
+            plan.push((s(t, "off"), s(t, "delay"), s(t, "gap"), s(t, "disp")));
+        }
+    }
+    let ms = UNIT / 1000;
+    'outer: for (off, delay, gap, disp) in plan {
+        let (gap_fixed, gap_dur) = match gap.as_str() {
+            "ms" => (ms, std::time::Duration::from_millis(1)),
+            "sec" => (UNIT, std::time::Duration::from_secs(1)),
+            _ => ((1 << 17) * UNIT, std::time::Duration::from_secs(1 << 17)),
+        };
+        tokio::time::advance(gap_dur).await;
+        {
+            let mut l = clock.log.lock().unwrap();
+            l.mono = l.mono + NtpDuration::from_fixed_int(gap_fixed);
+        }
+        // a slew that ended in the meantime
+        if let Some(t) = slew_until {
+            if tokio::time::Instant::now() >= t {
+                slew_until = None;
+                match util::catch(|| ctl.time_update()) {
+                    Ok(u) => {
+                        if let Some(cm) = u.source_message {
+                            if let Err(p) = util::catch(|| src.handle_message(cm)) {
+                                panics.push(p);
+                                break 'outer;
+                            }
+                        }
+                    }
+                    Err(p) => {
+                        panics.push(p);
+                        break 'outer;
+                    }
+                }
+            }
+        }
+        let off_fixed = match off.as_str() {
+            "zero" => 0,
+            "unit" => 1,
+            "msneg" => -ms,
+            "sec" => UNIT,
+            "secneg" => -UNIT,
+            "maxpos" => BIG,
+            _ => -BIG,
+        };
+        let delay_fixed = match delay.as_str() {
+            "neg" => -UNIT,
+            "zero" => 0,
+            "min" => 1 << 14,
+            "ms" => ms,
+            "big" => 16 * UNIT,
+            _ => BIG,
+        };
+        let m = InternalMeasurement {
+            delay: NtpDuration::from_fixed_int(delay_fixed),
+            offset: NtpDuration::from_fixed_int(off_fixed),
+            localtime: clock.local(),
+            root_delay: NtpDuration::from_fixed_int(0),
+            root_dispersion: NtpDuration::from_fixed_int(if disp == "max" { BIG } else { 0 }),
+            leap: NtpLeapIndicator::NoWarning,
+            precision: 0,
+        };
+        let msg = match util::catch(|| src.handle_measurement(m)) {
+            Ok(x) => x,
+            Err(p) => {
+                panics.push(p);
+                break;
+            }
+        };
+        match util::catch(|| src.observe()) {
+            Ok(o) => {
+                c.put("obs_offset", o.offset.to_seconds(), false);
+                c.put("obs_uncertainty", o.uncertainty.to_seconds(), true);
+                c.put("obs_delay", o.delay.to_seconds(), true);
+            }
+            Err(p) => {
+                panics.push(p);
+                break;
+            }
+        }
+        let Some(msg) = msg else { continue };
+        let sn = msg.inner;
+        c.put("est_offset", sn.state.offset(), false);
+        c.put("est_variance", sn.state.offset_variance(), true);
+        c.put("est_freq", sn.state.frequency(), false);
+        c.put("est_freq_variance", sn.state.frequency_variance(), true);
+        c.put("est_delay", sn.delay, true);
+        c.put("est_wander", sn.wander, true);
+        if sn.state.frequency_variance() != INITIALIZATION_FREQ_UNCERTAINTY_PROBE {
+            stable = true;
+        }
+        let upd = match util::catch(|| ctl.source_message(id, msg)) {
+            Ok(u) => u,
+            Err(p) => {
+                panics.push(p);
+                break;
+            }
+        };
+        {
+            let mut l = clock.log.lock().unwrap();
+            clock_calls += l.steps.len() + l.freqs.len();
+            for f in l.freqs.drain(..) {
+                c.put("clk_freq", f, false);
+            }
+            for st in l.steps.drain(..) {
+                c.put("clk_step", st.to_seconds(), false);
+            }
+            for (e, mx) in l.errs.drain(..) {
+                c.put("clk_est_error", e.to_seconds(), true);
+                c.put("clk_max_error", mx.to_seconds(), true);
+            }
+            l.status.clear();
+        }
+        if let Some(ts) = upd.time_snapshot {
+            c.put("snap_var0", ts.root_variance_base, true);
+            c.put("snap_var1", ts.root_variance_linear, false);
+            c.put("snap_var2", ts.root_variance_quadratic, true);
+            c.put("snap_var3", ts.root_variance_cubic, true);
+            c.put("snap_delay", ts.root_delay.to_seconds(), true);
+            // what a client is told one second after this update (t >= 0) ...
+            let later = ts.root_variance_base_time + NtpDuration::from_fixed_int(UNIT);
+            match util::catch(|| ts.root_dispersion(later)) {
+                Ok(d) => c.put("snap_dispersion", d.to_seconds(), true),
+                Err(p) => panics.push(p),
+            }
+            // ... and right now on the (possibly just stepped) local clock: after a backward step the elapsed time is
+            // negative, which C06 as stated does not cover; recorded as an observation only
+            let now = clock.local();
+            if util::catch(|| ts.root_dispersion(now)).is_err() {
+                disp_nan_after_step = true;
+            }
+        }
+        if let Some(d) = upd.next_update {
+            slew_until = Some(tokio::time::Instant::now() + d);
+        }
+        if let Some(cm) = upd.source_message {
+            match &cm.inner {
+                KalmanControllerMessageInner::Step { steer } => c.put("msg_steer", *steer, false),
+                KalmanControllerMessageInner::FreqChange { steer, .. } => c.put("msg_steer", *steer, false),
+            }
+            if let Err(p) = util::catch(|| src.handle_message(cm)) {
+                panics.push(p);
+                break;
+            }
+        }
+    }
+    for p in &panics {
+        let l = p.to_lowercase();
+        if l.contains("nan") || l.contains("infinite") {
+            nanpanic = true;
+        }
+    }
+    json!({"cls": c.0, "nanpanic": nanpanic, "panics": panics, "stable": stable, "clock_calls": clock_calls,
+           "disp_nan_after_step": disp_nan_after_step})
+}
+
+// the frequency variance every initial-phase snapshot carries (source.rs INITIALIZATION_FREQ_UNCERTAINTY)
+const INITIALIZATION_FREQ_UNCERTAINTY_PROBE: f64 = 100.0;
+
+fn run_filter(job: &Value) {
+    let shapes = util::read_ndjson(job["input"].as_str().unwrap());
+    let mut out = util::NdjsonOut::create(job["output"].as_str().unwrap());
+    for (n, shape) in shapes.iter().enumerate() {
+        let rt = tokio::runtime::Builder::new_current_thread().enable_time().start_paused(true).build().unwrap();
+        let mut row = rt.block_on(run_shape(shape));
+        row["id"] = json!(n);
+        out.put(&row);
+    }
+    out.finish();
+}
+
+// ------------------------------------------------------------------------------------------------
+#[test]
+fn verif_kalman() {
+    let job = util::job();
+    match job["mode"].as_str().unwrap() {
+        "select" => run_select(&job),
+        "leap" => run_leap(&job),
+        "replay" => run_replay(&job),
+        "filter" => run_filter(&job),
+        m => panic!("unknown mode {m}"),
+    }
+}
